@@ -17,6 +17,19 @@ def F(x):
     return [x[k] for k in sorted(x)] if isinstance(x, dict) and x and all(isinstance(k, int) for k in x) else list(x)
 
 
+class NoDecisionFunction(Exception):
+    """The backend has no decision function that can be called for one task (it was renamed or inlined)."""
+
+
+def _decide_fn(q_mod):
+    cls = q_mod.QueueScheduling
+    for name in ('decide_new_state', '_decide_new_state', 'decide', '_decide'):
+        fn = getattr(cls, name, None)
+        if callable(fn):
+            return fn
+    raise NoDecisionFunction('QueueScheduling has no decide_new_state')
+
+
 def call_real(own, deps):
     import schedrun
     env_mod, q_mod = schedrun.load()
@@ -39,11 +52,12 @@ def call_real(own, deps):
                 d[dt.name].update(start_clock=dep['e'] - 1, end_clock=dep['e'])
     env = env_mod.Env(d)
     before = {k: dict(v) for k, v in schedrun.env_dict(env).items() if k != 't0'}
+    decide = _decide_fn(q_mod)
     try:
-        res = q_mod.QueueScheduling.decide_new_state(task, dtasks, [dt for dt, dep in zip(dtasks, deps) if dep['hard']], env)
+        res = decide(task, dtasks, [dt for dt, dep in zip(dtasks, deps) if dep['hard']], env)
         decision = 'DROP' if res is None else TaskStatus(res).name
     except Exception:  # pylint: disable=broad-except
-        decision = 'ASSERT'           # any exception: the call refuses the input
+        decision = 'ASSERT'           # any exception raised BY THE CALL: it refuses the input
     e = schedrun.env_dict(env).get('t0')
     status = 'ABSENT' if e is None or 'status' not in e else TaskStatus(e['status']).name
     if own['st'] == 'ABSENT' and status == 'WAITING' and decision in ('DROP', 'ASSERT'):
@@ -53,6 +67,12 @@ def call_real(own, deps):
 
 
 def run(ctx, wd, pid):
+    import schedrun
+    try:
+        _decide_fn(schedrun.load()[1])
+    except NoDecisionFunction as ex:
+        ctx.drift('Decide.tla cannot be bound to the code: %s; the decision rule is still checked through Sched / Runs' % ex)
+        return
     consts = {'MaxDeps': ctx.pick(2, 3), 'Clocks': frozenset({1, 2, 3}), 'OwnStatuses': frozenset(ALL_OWN)}
     cfg = tlc.write_cfg(os.path.join(wd, 'decide.cfg'), constants=consts, invariants=INVS, deadlock=False)
     dump = os.path.join(wd, 'decide')
